@@ -177,6 +177,45 @@ def gptdist_binding() -> None:
     item('GptDist rejects group creation that differs between ranks', not r.ok)
 
 
+def trace_binding() -> None:
+    """Direction B: recorded executions against spec/KfacTrace.tla."""
+    from harness import tracecheck
+    recs = tracecheck.run_repo_training_loop()
+    out = tracecheck.validate(recs, 'st')
+    item("KfacTrace accepts the repository's own training loop "
+         '(tests/training_test.py: train)',
+         not out['rejected'] and out['events'] >= 40,
+         f'{out["events"]} events')
+    bad = copy.deepcopy(recs)
+    k = next(i for i, e in enumerate(bad[0]['events'])
+             if e['act'] == 'step' and e['steps'] == 6)
+    bad[0]['events'][k]['chA'] = False      # the factor update at step 5
+    out = tracecheck.validate(bad, 'st')
+    item('KfacTrace rejects a corrupted "factor changed" observation',
+         len(out['rejected']) == 1 and out['rejected'][0]['at'] == k + 1,
+         str([(r['at'], (r['event'] or {}).get('act')) for r in out['rejected']]))
+    bad = copy.deepcopy(recs)
+    k = next(i for i, e in enumerate(bad[0]['events'])
+             if e['act'] == 'step' and e['steps'] == 11)
+    bad[0]['events'][k]['ndec'] = 0          # the refresh at step 10
+    out = tracecheck.validate(bad, 'st')
+    item('KfacTrace rejects a missing recomputation on a refresh step',
+         len(out['rejected']) == 1 and out['rejected'][0]['at'] == k + 1)
+    bad = copy.deepcopy(recs)
+    k = next(i for i, e in enumerate(bad[0]['events']) if e['act'] == 'step')
+    del bad[0]['events'][k]                  # a lost hook: one step unlogged
+    out = tracecheck.validate(bad, 'st')
+    item('KfacTrace rejects a trace with one step event removed',
+         len(out['rejected']) == 1)
+    rr = []
+    for s in range(4):
+        rr += tracecheck.random_driver(7000 + s, 40)
+    out = tracecheck.validate(rr, 'st')
+    item('KfacTrace accepts random API drivers incl. resumes',
+         not out['rejected'] and out['traces'] >= 4,
+         f'{out["traces"]} traces, {out["events"]} events')
+
+
 def kfacref_binding() -> None:
     cfg = kaisa.Config(F=1, I=2, model='mlp2', prediv=False)
     hs, _ = refreplay.gen_behaviours(cfg, ['Train', 'Step'], [1], [-1], 4, 0,
@@ -230,6 +269,7 @@ def main() -> int:
     comm_binding()
     kfacdist_binding()
     gptdist_binding()
+    trace_binding()
     kfacref_binding()
     vacuity()
     bad = [n for n, ok, _ in RESULTS if not ok]
